@@ -121,6 +121,8 @@ pub struct RpcRec {
     /// For datastore writes: which key kind ("state" / "attempt").
     pub ds_kind: Option<&'static str>,
     pub fault: Option<&'static str>,
+    /// waitsendpay with a timeout: virtual time at which it gives up (code 200).
+    pub deadline_ms: Option<u64>,
 }
 
 #[derive(Clone, Debug, PartialEq)]
@@ -417,6 +419,7 @@ impl SimNode {
             lifetime: self.lifetime,
             ds_kind,
             fault: None,
+            deadline_ms: None,
         });
         self.rpcs.len() - 1
     }
@@ -926,6 +929,20 @@ impl SimNode {
             }
         }
         true
+    }
+
+    /// waitsendpay calls with a timeout give up with code 200 once it has elapsed.
+    pub fn expire_waits(&mut self, now_ms: u64) -> u32 {
+        let mut n = 0;
+        for r in self.rpcs.iter_mut() {
+            if let (RpcState::WaitingPart(_), Some(d)) = (&r.state, r.deadline_ms) {
+                if now_ms >= d {
+                    r.state = RpcState::ReplyReady(err(200, "Timed out while waiting"));
+                    n += 1;
+                }
+            }
+        }
+        n
     }
 
     // ----- crash --------------------------------------------------------------
